@@ -606,7 +606,8 @@ def rule_u128_count_chunks(col, facts):
                 if e[0] == "call" and last_seg(e[1]) == "u64_step" and len(ds) >= 3:
                     counter = l
     if counter is None:
-        raise AnchorMissing("u128 digit_count: no counter initialised with u64_step(radix)")
+        from rules.core import ShapeUnknown
+        raise ShapeUnknown("u128 digit_count has no counter initialised with u64_step(radix): the chunk count is written in another shape")
     n = 0
     for bb, j, rv, pr in f.defs()[counter]:
         if rv[0] == "call":
@@ -2081,34 +2082,49 @@ def rule_index_widening(col, facts):
 
 
 def rule_naive_count_stages(col, facts):
-    """UNIT-stage (digit_count!(@naive)): every stage `value /= D; digits += k` runs under `value >= D` with the
+    """UNIT-stage (naive digit count): every stage `value /= D; digits += k` runs under `value >= D` with the
     same D (non-strict): with `>` a value equal to D keeps too few digits and the unchecked writer, which trusts
-    the count, writes before the caller's slice."""
+    the count, writes before the caller's slice.  Both spellings are read: primitive `/` and `>=` (the macro
+    instantiated per type) and the `Div`/`DivAssign`/`PartialOrd` trait calls of a generic function."""
     if facts.config.startswith("compact") or "radix" not in facts.config:
         return
     R = "UNIT-stage"
     n = 0
+
+    def peel(x):
+        x = strip_casts(x)
+        while x[0] == "ref" or (x[0] == "proj" and all(p == "*" for p in x[2])):
+            x = strip_casts(x[1])
+        return x
     for f in facts.all_fns():
-        if f.crate != "lexical_write_integer" or "DigitCount" not in f.short or not f.short.endswith("::digit_count"):
+        if f.crate != "lexical_write_integer" or "digit_count" not in f.short or f.kind == "Closure":
             continue
+        stages = []
         for i, b in enumerate(f.blocks):
             if not f.live(i):
                 continue
             for st in b["s"]:
-                if st[0] == "=" and st[2][0] == "bin" and st[2][1] == "Div" and any("digit_count" in m for m in f.macros(st[3])):
+                if st[0] == "=" and st[2][0] == "bin" and st[2][1] == "Div":
                     e = rvalue_expr(f, st[2], 0)
-                    val, div = strip_casts(e[2]), strip_casts(e[3])
-                    if val[0] != "var":
-                        continue
-                    n += 1
-                    ok = False
-                    for _d, c, p in path_conditions(f, i):
-                        c = strip_casts(c)
-                        if c[0] == "bin" and strip_casts(c[2]) == val and strip_casts(c[3]) == div:
-                            if (c[1] == "Ge" and p is True) or (c[1] == "Lt" and p is False):
-                                ok = True
-                    col.check(R, "%s:stage#%d" % (f.short.split(" as ")[0].strip("<"), n), ok,
-                              "`%s` is not guarded by `%s >= %s`: a value equal to the divisor is under-counted" % (show(e), show(val), show(div)), f.loc(st[3]))
+                    stages.append((i, peel(e[2]), peel(e[3]), f.loc(st[3])))
+            t = b["t"]
+            if t["k"] == "call" and last_seg(callee_name(t["f"])) in ("div_assign", "div") and "ops::arith" in callee_name(t["f"]) and len(t["a"]) == 2:
+                stages.append((i, peel(op_expr(f, t["a"][0])), peel(op_expr(f, t["a"][1])), f.loc(b["ts"])))
+        for i, val, div, loc in stages:
+            if val[0] not in ("var", "arg"):
+                continue
+            n += 1
+            ok = False
+            for _d, c, p in path_conditions(f, i):
+                c = strip_casts(c)
+                if c[0] == "bin" and peel(c[2]) == val and peel(c[3]) == div:
+                    if (c[1] == "Ge" and p is True) or (c[1] == "Lt" and p is False):
+                        ok = True
+                if c[0] == "call" and last_seg(c[1]) in ("ge", "lt") and len(c[2]) == 2 and peel(c[2][0]) == val and peel(c[2][1]) == div:
+                    if (last_seg(c[1]) == "ge" and p is True) or (last_seg(c[1]) == "lt" and p is False):
+                        ok = True
+            col.check(R, "%s:stage#%d" % (f.short.split(" as ")[0].strip("<").replace("lexical_write_integer::digit_count::", ""), n), ok,
+                      "`%s / %s` is not guarded by `%s >= %s`: a value equal to the divisor is under-counted" % (show(val), show(div), show(val), show(div)), loc)
     col.floor(R, "division stages of the naive digit count", n, 3)
 
 
